@@ -7,6 +7,7 @@ def plan(tier):
         Cond("vf.h.h_shift", "h_range", case=0, timeout=100, label="H20-range"),
         Cond("vf.h.h_shift", "h_sched", case=0, timeout=100, label="H20-sched"),
         Cond("vf.h.h_shift", "h_drv", case=0, timeout=600, label="H20-drv", weight=20),
+        Cond("vf.h.h_shift", "h_step_shift", case=0, timeout=600, label="H20-step-at-shift-boundary", weight=20),
         Cond("vf.h.h_disp", "h_disp_shift", case=0, timeout=600, env={"VF_ORACLE": "C20"}, label="H20-disp[no fleets]", weight=20),
         Cond("vf.h.h_disp", "h_disp_shift", case=2, timeout=600, env={"VF_ORACLE": "C20"}, label="H20-disp[two fleets]", weight=20),
     ]
@@ -15,7 +16,7 @@ def plan(tier):
         "min_classes": 12,
         "explanation": "C20: real time_in_range == membership in [start, end) on the 24 h circle (wrap, empty shift); the real schedule closure of read_time_range_row with symbolic "
                        "shift bounds agrees with it at any epoch clock (multi-day); real perform_driver_state_updates with two human drivers (symbolic shifts and current availability) "
-                       "leaves available <=> in shift at sim_time with exactly one on/off event per flip and nothing else changed; the real Dispatcher never pairs an off-shift driver.",
+                       "leaves available <=> in shift at sim_time with exactly one on/off event per flip and nothing else changed; the real Dispatcher never pairs an off-shift driver; real StepSimulation.update at a shift boundary assigns the waiting request iff the step's start time lies in the shift.",
         "entry_points": ["time_helpers.time_in_range", "time_range_schedule.read_time_range_row._schedule_fn", "step_simulation_ops.perform_driver_state_updates",
                          "HumanAvailable.update", "HumanUnavailable.update", "driver_event_ops.driver_schedule_event", "Dispatcher.generate_instructions"],
         "bounds": ["shift bounds and clock: any second of day / any epoch second < 2e9", "2 human drivers + 1 autonomous"],
